@@ -26,13 +26,20 @@ type c10Char struct {
 	c      *characteristic.Characteristic
 	acc    *accessory.Accessory
 	isBool bool
+	isStr  bool   // string-valued: value n stands for c10Strings[n]
 	flags  string // r w e u
 	max    int    // declared maximum (0 = none): values above it are clamped by the characteristic
 }
 
+// string values for the string-valued characteristic: text that looks like the protocol lines around it
+var c10Strings = []string{"", "on", "HTTP/1.0 200 OK", "via HTTP/1.0 proxy HTTP/1.0", "EVENT/1.0", "a\r\n\r\nb", "Content-Length: 0"}
+
 func (k *c10Char) goValue(v int) interface{} {
 	if k.isBool {
 		return v%2 == 1
+	}
+	if k.isStr {
+		return c10Strings[v%len(c10Strings)]
 	}
 	return v
 }
@@ -50,6 +57,12 @@ func natOfJSON(v interface{}) string {
 		return fmt.Sprint(int(x))
 	case int:
 		return fmt.Sprint(x)
+	case string:
+		for i, t := range c10Strings {
+			if t == x {
+				return fmt.Sprint(i)
+			}
+		}
 	}
 	return fmt.Sprintf("?%v", v)
 }
@@ -72,18 +85,23 @@ func newC10World() *c10World {
 	wo.Format = characteristic.FormatUInt8
 	wo.Perms = []string{characteristic.PermWrite, characteristic.PermEvents}
 	pse := characteristic.NewProgrammableSwitchEvent()
+	str := characteristic.NewString("F103")
+	str.Perms = characteristic.PermsAll()
+	str.SetValue("")
+	extra.AddCharacteristic(str.Characteristic)
 	extra.AddCharacteristic(noEv.Characteristic)
 	extra.AddCharacteristic(wo.Characteristic)
 	extra.AddCharacteristic(pse.Characteristic)
 	sw.AddService(extra)
 	w.accs = []*accessory.Accessory{sw.Accessory, lb.Accessory}
 	w.chars = []*c10Char{
-		{"Switch.On", sw.Switch.On.Characteristic, sw.Accessory, true, "rwe-", 0},
-		{"Lightbulb.Brightness", lb.Lightbulb.Brightness.Characteristic, lb.Accessory, false, "rwe-", 100},
-		{"custom no-ev", noEv.Characteristic, sw.Accessory, false, "rw--", 0},
-		{"custom write-only ev", wo.Characteristic, sw.Accessory, false, "-we-", 0},
-		{"ProgrammableSwitchEvent", pse.Characteristic, sw.Accessory, false, "r-eu", 0},
-		{"Lightbulb.On", lb.Lightbulb.On.Characteristic, lb.Accessory, true, "rwe-", 0},
+		{"Switch.On", sw.Switch.On.Characteristic, sw.Accessory, true, false, "rwe-", 0},
+		{"Lightbulb.Brightness", lb.Lightbulb.Brightness.Characteristic, lb.Accessory, false, false, "rwe-", 100},
+		{"custom no-ev", noEv.Characteristic, sw.Accessory, false, false, "rw--", 0},
+		{"custom write-only ev", wo.Characteristic, sw.Accessory, false, false, "-we-", 0},
+		{"ProgrammableSwitchEvent", pse.Characteristic, sw.Accessory, false, false, "r-eu", 0},
+		{"Lightbulb.On", lb.Lightbulb.On.Characteristic, lb.Accessory, true, false, "rwe-", 0},
+		{"custom string", str.Characteristic, sw.Accessory, false, true, "rwe-", 0},
 	}
 	return w
 }
@@ -134,6 +152,11 @@ func checkC10(c *Ctx) {
 
 func c10History(c *Ctx, id string, r *rand.Rand) (string, string) {
 	w := newC10World()
+	if r.Intn(2) == 0 {
+		// the application reads Brightness from hardware that lags behind: a get callback that does not (yet) return what was
+		// just written. No step of a history reads this characteristic, so the callback has no business being invoked.
+		w.chars[1].c.OnValueGet(func() interface{} { return 7 })
+	}
 	acc, err := startE2E(c.ScratchDir(), "00102003", false, w.accs[0], w.accs[1])
 	if err != nil {
 		c.Violate("transport does not start", id, nil, "started", err.Error())
@@ -209,6 +232,9 @@ func c10History(c *Ctx, id string, r *rand.Rand) (string, string) {
 			if w.chars[ch].isBool {
 				v = r.Intn(2)
 			}
+			if w.chars[ch].isStr {
+				v = r.Intn(len(c10Strings))
+			}
 			if w.chars[ch].max > 0 { // bounded: also values at and beyond the limit (the characteristic clamps them)
 				v = []int{0, 1, 2, w.chars[ch].max - 1, w.chars[ch].max, w.chars[ch].max, w.chars[ch].max + 1, w.chars[ch].max + 20, 250}[r.Intn(9)]
 			}
@@ -228,13 +254,17 @@ func c10History(c *Ctx, id string, r *rand.Rand) (string, string) {
 				tok = fmt.Sprintf("unsub %d %d", cn, ch)
 			case k < 15:
 				tok = fmt.Sprintf("local %d %d", ch, v)
-			default:
+			case k < 18:
 				tok = fmt.Sprintf("remote %d %d %d", cn, ch, v)
+			default: // one entry carrying both a value and "ev"
+				tok = fmt.Sprintf("remoteev %d %d %d %d", cn, ch, v, r.Intn(2))
 			}
 		}
 		f := strings.Fields(tok)
 		num := func(i int) int { var x int; fmt.Sscan(f[i], &x); return x }
 		skip := false
+		extraTok := ""
+		subAfter, subAfterCn, subAfterCh, subAfterOn := false, 0, 0, false
 		noFence := false
 		origin := 0
 		changed := -1 // characteristic whose value the reference expects to change (or to be re-notified)
@@ -333,7 +363,7 @@ func c10History(c *Ctx, id string, r *rand.Rand) (string, string) {
 			if strings.Contains(k.flags, "r") {
 				cur[ch] = want
 			}
-		case "remote":
+		case "remote", "remoteev":
 			cn, ch, raw := num(1), num(2), num(3)
 			if conns[cn] == nil {
 				skip = true
@@ -347,6 +377,14 @@ func c10History(c *Ctx, id string, r *rand.Rand) (string, string) {
 			tok = fmt.Sprintf("remote %d %d %d", cn, ch, v)
 			vb, _ := json.Marshal(k.goValue(raw))
 			body := fmt.Sprintf(`{"characteristics":[{"aid":%d,"iid":%d,"value":%s}]}`, k.acc.ID, k.c.ID, vb)
+			if f[0] == "remoteev" {
+				// for the model: the write, then the subscription change (hc handles the members of an entry in this order)
+				body = fmt.Sprintf(`{"characteristics":[{"aid":%d,"iid":%d,"value":%s,"ev":%v}]}`, k.acc.ID, k.c.ID, vb, num(4) == 1)
+				extraTok = fmt.Sprintf("%s %d %d", map[bool]string{true: "sub", false: "unsub"}[num(4) == 1], cn, ch)
+				if verified[cn] && strings.Contains(k.flags, "e") {
+					subAfter, subAfterCn, subAfterCh, subAfterOn = true, cn, ch, num(4) == 1
+				}
+			}
 			if _, err := conns[cn].Do("PUT", "/characteristics", "application/hap+json", []byte(body)); err != nil {
 				c.Violate("request on an open connection fails", id, append(toks, tok), "response", err.Error())
 				return "", ""
@@ -430,6 +468,13 @@ func c10History(c *Ctx, id string, r *rand.Rand) (string, string) {
 			outs = append(outs, strings.Join(evs, " "))
 		}
 		toks = append(toks, tok)
+		if extraTok != "" {
+			toks = append(toks, extraTok)
+			outs = append(outs, "-")
+		}
+		if subAfter {
+			subs[subAfterCn][subAfterCh] = subAfterOn
+		}
 		c.Hist("step:" + f[0])
 	}
 	c.Count(strings.Join(toks, ";"), delivered, fmt.Sprintf("conns=%d", nconn), fmt.Sprintf("steps<=%d", (len(toks)/10+1)*10))
